@@ -1,5 +1,5 @@
 #!/bin/bash
-# usage: tools/mutant_run.sh <patch-or-"sed:EXPR:FILE"> <ID> [tier] [seed]
+# usage: tools/mutant_run.sh <patch | "sed@@EXPR@@FILE" | none> <ID> [tier] [seed]
 # Applies a change to a scratch copy of /repo's working tree (outside /repo and /verif), runs the
 # property's check against it (PVVERIF_REPO) with evidence/replays redirected, prints the verdict,
 # removes the copy.
@@ -10,8 +10,8 @@ W=$(mktemp -d /tmp/pvmut.XXXXXX)
 trap 'rm -rf "$W"' EXIT
 mkdir -p "$W/repo" "$W/out"
 rsync -a --exclude .git --exclude '*.pyc' --exclude __pycache__ /repo/ "$W/repo/"
-if [[ "$PATCH" == sed:* ]]; then
-  IFS=: read -r _ EXPR FILE <<<"$PATCH"
+if [[ "$PATCH" == sed@@* ]]; then
+  REST=${PATCH#sed@@}; EXPR=${REST%%@@*}; FILE=${REST##*@@}
   sed -i "$EXPR" "$W/repo/$FILE" || exit 3
 elif [[ "$PATCH" != none ]]; then
   (cd "$W/repo" && patch -p1 -s < "$PATCH") || { echo "PATCH-FAILED"; exit 3; }
